@@ -198,6 +198,18 @@ async def run_script(job):
                     ev("sentwait", s=c["s"])
                 except Exception as e:
                     ev("sentwait", s=c["s"], err=type(e).__name__)
+            elif k == "cliblank":
+                # the user just hits return at the prompt of the bundled CLI client: nothing happens, the prompt comes back
+                cl = clients.get(c["s"])
+                if cl is None or cl.cli is None:
+                    continue
+                try:
+                    cl.cli.stdin.write(b"   \n")
+                    await cl.cli.stdin.drain()
+                    out = await read_until_prompt(cl.cli.stdout)
+                    ev("cliblank", s=c["s"], prompt=out.endswith("> "))
+                except Exception as e:
+                    ev("cliblank", s=c["s"], prompt=False)
             elif k == "pause":
                 await asyncio.sleep(c.get("secs", 1))       # real time passes (slow clients; thorough tier)
             elif k == "cliwait":
